@@ -19,6 +19,12 @@ for d in sorted(glob.glob('/verif/seeded/%s-*' % pid)):
     except Exception:
         pass
 tried_txt = ('\n\nALREADY TRIED by earlier rounds (do something DIFFERENT: other code sites, other mechanisms):\n' + '\n'.join(tried)) if tried else ''
+mech_txt = ''
+if '--mech' in sys.argv:
+    ms = p['anchors'].get('mechanism') or []
+    if ms:
+        mech_txt = ('\nMECHANISMS the property rests on (pick sites among these that the earlier rounds have NOT touched, or the glue between two of them):\n'
+                    + '\n'.join('- %s  [%s]' % (m['name'], m['where']) for m in ms))
 wt = f'/tmp/seed-{pid}'
 out = f'/tmp/seed-{pid}-out'
 print(f"""You are working on the G-Node/nix C++ library (NIX neuroscience data model over HDF5) in a scratch git worktree at {wt} (detached HEAD of the pinned commit). Work ONLY inside {wt} and {out}. Never touch or read /repo or /verif.
@@ -28,7 +34,7 @@ Here is a semantic property the library is supposed to satisfy:
 TITLE: {p['title']}
 STATEMENT: {p['statement']}
 QUANTIFIED OVER: {p['quantifier']['text']}
-RELEVANT FILES: {', '.join(p['anchors']['files'])}{tried_txt}
+RELEVANT FILES: {', '.join(p['anchors']['files'])}{mech_txt}{tried_txt}
 
 YOUR TASK: produce {n} independent, realistic source changes ("seeded bugs") to the library, each of which BREAKS this property while the library still compiles and the existing test suite still passes. They should look like plausible regressions a developer could introduce (an off-by-one, a wrong comparison, a reordered statement, a missed case, a stale cache, a wrong default, two sites that each look fine alone...), NOT sabotage that ordinary use would expose at once. Each change must need something specific to manifest: a particular multi-step sequence of operations, an unusual-but-legal input, a boundary value, a particular crash/kill point or interleaving, or two cooperating sites. Make the {n} changes use different mechanisms / different code sites. Keep each patch small (a few lines).
 
